@@ -126,6 +126,8 @@ def _remove(m, o):
         a = {'all': 1, 'Sel': []}
     else:
         sets = build_settings(m.lib, o['sets'])
+        if o.get('single') and len(sets) == 1:
+            sets = sets[0]          # the bare form instead of a one-element list
         a = {'all': 0, 'Sel': m.texts.tids(o['S'])}
     a.update({'start': opt(o.get('start', 0)), 'end': opt(o.get('end'))})
     ip = m.kinds[o['r']] == 'S'
